@@ -5,6 +5,7 @@
 // string() renderer, raw decoder calls in seeded order, and the five tools' main() in-process.
 // Monitors: ASan/UBSan (worker dies -> crash candidate), only std::exception-derived errors may surface, the tools must
 // return, no allocation request of 1 GiB or more and none beyond max(256*|input|, 1 MiB), per-run watchdog.
+#include <deque>
 #include "pipeline.h"
 #include "simstream.h"
 #include "tools.h"
@@ -327,6 +328,8 @@ void sim::engine_damage(RunCtx& cx) {
     uint64_t text_hash[2] = {0, 0};
     const char* pass_outcome[2] = {"", ""};
     long stream_fail = r.chance(1, 10) ? (long)r.below(f.size() + 1) : -1;
+    const unsigned hold = (unsigned)Rng(mix64(cx.seed, 3)).below(3);   // 0: use the returned block, 1: a kept copy, 2: a kept moved-to block
+    cx.ctr->add(hold == 0 ? "probe.block_used_directly" : hold == 1 ? "probe.block_kept_by_copy" : "probe.block_kept_by_move");
     for (int pass = 0; pass < 2; pass++) {
         mon.begin("reader");
         simalloc::state().fill = true;
@@ -341,11 +344,25 @@ void sim::engine_damage(RunCtx& cx) {
             CDNS::CdnsReader rd(is);
             std::string s = rd.m_file_preamble.string();
             h = fnv1a(s, h);
+            // In two of three runs the application keeps the blocks (copy- or move-constructed into a container) and uses the
+            // accessors on what it kept, after the object the reader returned is gone.
+            std::deque<CDNS::CdnsBlockRead> held;   // (the copy constructor takes a non-const reference: emplace, no assignment)
             for (size_t nb = 0; nb < 200000; nb++) {
                 bool eof = false;
-                CDNS::CdnsBlockRead b = rd.read_block(eof);
-                if (eof) break;
-                uint64_t bh = render_everything(b);
+                if (hold == 0) {
+                    CDNS::CdnsBlockRead b = rd.read_block(eof);
+                    if (eof) break;
+                    uint64_t bh = render_everything(b);
+                    h = fnv1a(&bh, sizeof bh, h);
+                    continue;
+                }
+                {
+                    CDNS::CdnsBlockRead b = rd.read_block(eof);
+                    if (eof) break;
+                    if (hold == 1) held.emplace_back(b); else held.emplace_back(std::move(b));
+                }
+                if (held.size() > 3) held.pop_front();
+                uint64_t bh = render_everything(held.back());
                 h = fnv1a(&bh, sizeof bh, h);
             }
         } catch (CDNS::CdnsDecoderEnd&) { simalloc::state().fail_at = 0; outcome = "CdnsDecoderEnd"; }
